@@ -284,7 +284,7 @@ Qed.
 Lemma step_sbinv c s e : conv_ev_ok c s e = true -> sbinv c s -> sbinv c (step c s e).
 Proof.
   intros Hok [H1 H2]. destruct (is_mut e) eqn:He.
-  - destruct e as [svc k m| | | | |]; try discriminate. cbn [conv_ev_ok] in Hok. unfold cmut_ok in Hok.
+  - destruct e as [svc k m| | | | | |]; try discriminate. cbn [conv_ev_ok] in Hok. unfold cmut_ok in Hok.
     apply andb_prop in Hok as [Hs Hst].
     destruct svc; cbn [step]; split; cbn; first [assumption | apply mut_tbl_binv; assumption].
   - destruct (sstep_step c s e He) as [[Hb1 _] [Hb2 _]]. unfold sbinv. rewrite Hb1, Hb2. split; assumption.
@@ -384,3 +384,27 @@ Qed.
 
 Lemma tp_refresh_ctp c s : ctp (tp_refresh c 0 s) = btp s.
 Proof. unfold tp_refresh. rewrite ctp_tp_ops. reflexivity. Qed.
+
+(** ---- the next window starts where the previous one ended ---- *)
+
+Lemma delta_then_tick c from until now u2 s :
+  let s1 := step c s (EDelta from until AbNo) in
+  lu s1 = until /\ warn s1 = false /\ force s1 = force s /\
+  (until + c_interval c <= now -> force s = false ->
+   step c s1 (ETick now u2 AbNo) = update_delta c until u2 now now AbNo (set_force false (set_lu now s1))) /\
+  step c s1 (EResume now u2) = update_delta c until u2 now now AbNo (tp_refresh c 0 s1).
+Proof.
+  cbn zeta. cbn [step].
+  assert (H1 : lu (update_delta c from until until until AbNo s) = until) by reflexivity.
+  assert (H2 : warn (update_delta c from until until until AbNo s) = false) by reflexivity.
+  assert (H3 : force (update_delta c from until until until AbNo s) = force s) by reflexivity.
+  split; [exact H1|]. split; [exact H2|]. split; [exact H3|]. split.
+  - intros Hdue Hf. remember (update_delta c from until until until AbNo s) as s1 eqn:Hs1.
+    unfold periodic. rewrite H1.
+    destruct (Z.ltb_spec now (until + c_interval c)); [lia|].
+    replace (warn (set_lu now s1)) with (warn s1) by reflexivity.
+    replace (force (set_lu now s1)) with (force s1) by reflexivity.
+    rewrite H2, H3, Hf. reflexivity.
+  - remember (update_delta c from until until until AbNo s) as s1 eqn:Hs1.
+    unfold resume. rewrite H1, H2. reflexivity.
+Qed.
